@@ -1,5 +1,7 @@
 import HioModel.Basic.Sexp
 import HioModel.Wsgi.Model
+import HioModel.Cli.Model
+import HioModel.Req.Model
 open Hio Hio.Sexp Hio.Http
 
 namespace Drv
@@ -44,9 +46,80 @@ def c18 : Sexp → Option Sexp
     some (.list [ofBytes o.raw, ofBool o.closed, ofNat o.calls])
   | _ => none
 
+
+/-! ### C19 -/
+
+def cliLoc? : Sexp → Option (Option Cli.Loc)
+  | .atom "-" => some none
+  | .list [s, p, path] => do some (some ⟨(← bool? s), (← nat? p), (← bytes? path)⟩)
+  | _ => none
+
+def cliResp? : Sexp → Option Cli.Resp
+  | .list [st, loc, body, fr, cl] => do
+    some ⟨(← nat? st), (← cliLoc? loc), (← bytes? body), (← nat? fr), (← bool? cl)⟩
+  | _ => none
+
+def cliServer? : Sexp → Option Cli.Server
+  | .list [p, .list rs] => do some ⟨(← nat? p), (← rs.mapM cliResp?)⟩
+  | _ => none
+
+def cliReq? : Sexp → Option Cli.Req
+  | .list [m, p, b] => do some ⟨(← bytes? m), (← bytes? p), (← bytes? b)⟩
+  | _ => none
+
+def ofOptNat : Option Nat → Sexp := ofOpt ofNat
+
+def outcomeName : Cli.Outcome → String
+  | .running => "running" | .refused => "refused" | .crashed => "crashed" | .stuck => "stuck"
+
+def c19 : Sexp → Option Sexp
+  | .list [.atom "c19", sec, port, .list rq, .list sv] => do
+    let sec ← bool? sec
+    let port ← nat? port
+    let rq ← rq.mapM cliReq?
+    let sv ← sv.mapM cliServer?
+    let fuel := 2 * (rq.length + (sv.map (fun s => s.script.length)).foldl (· + ·) 0) + 10
+    let s := Cli.run sv (List.replicate fuel true) (Cli.init sec port sv rq)
+    let ents := s.entries.map fun e =>
+      Sexp.list [ofOptNat e.status, ofBytes e.body, ofBool e.errored, ofOptNat e.tag, ofBytes e.method, ofBytes e.path, ofBytes e.rbody,
+                 .list (e.redirects.map fun h => .list [ofNat h.status, ofBytes h.path, ofOptNat h.tag])]
+    let wire := s.wire.map fun w => Sexp.list [ofNat w.port, ofBool w.tls, ofBytes w.method, ofBytes w.path, ofBytes w.body]
+    -- `stuck` is visible from outside only as waited = true with requests left
+    let oc := match s.outcome with | .stuck => "running" | o => outcomeName o
+    some (.list [sym oc, .list ents, .list wire, ofBool s.waited, ofNat s.queue.length])
+  | _ => none
+
+
+/-! ### C14 -/
+
+def exnName : Req.Exn → String
+  | .unmodelled => "unmodelled" | .incomplete => "incomplete" | .badRequestLine => "HTTPException"
+  | .unknownProtocol => "HTTPException" | .badMethod => "HTTPException" | .valueError => "ValueError"
+  | .tooManyHeaders => "HTTPException" | .noLength => "HTTPException"
+
+def ofPairs (ps : List (Bytes × Bytes)) : Sexp := .list (ps.map fun p => .list [ofBytes p.1, ofBytes p.2])
+
+def c14 : Sexp → Option Sexp
+  | .list [.atom "c14", m, p, qa, hs, bk, raw, form, host] => do
+    let spec : Req.Spec := ⟨(← bytes? m), (← bytes? p), (← pairs? qa), (← pairs? hs), (← nat? bk), (← bytes? raw), (← pairs? form), (← bytes? host)⟩
+    match Req.build spec with
+    | .error e => some (.list [sym "raise", sym (exnName e)])
+    | .ok msg =>
+      match Req.recover msg with
+      | .error e => some (.list [ofBytes msg, .list [sym "error", sym (exnName e)]])
+      | .ok v => some (.list [ofBytes msg, .list [sym "ok", ofBytes v.method, ofBytes v.path, ofPairs v.query, ofPairs v.headers, ofBytes v.body]])
+  | .list [.atom "quote", b] => do some (ofBytes (Req.quote (← bytes? b)))
+  | .list [.atom "quote_plus", b] => do some (ofBytes (Req.quotePlus (← bytes? b)))
+  | .list [.atom "unquote", b] => do some (ofBytes (Req.unq (← bytes? b)))
+  | .list [.atom "unquote_plus", b] => do some (ofBytes (Req.unqPlus (← bytes? b)))
+  | .list [.atom "parse_qsl", b] => do some (ofPairs (Req.parseQsl (← bytes? b)))
+  | _ => none
+
 def handle (r : Sexp) : Sexp :=
   match r with
   | .list (.atom "c18" :: _) => (c18 r).getD (sym "bad-request")
+  | .list (.atom "c19" :: _) => (c19 r).getD (sym "bad-request")
+  | .list (.atom _ :: _) => (c14 r).getD (sym "bad-request")
   | _ => sym "bad-request"
 
 end Drv
